@@ -59,7 +59,7 @@ def main(argv):
     ck.oblige("symbolic traces of gates.py / circuit.py / simulator.py regenerated (fail-closed)", C is not None)
     ok, failing, out = (False, "trace:" + str(terr), terr) if C is None else ck.coq_props()
 
-    ncase = 10 if ck.tier == "quick" else 80
+    ncase = 24 if ck.tier == "quick" else 120
     first = None; corr_bad = None
     for cls in sc.CLASSES:
         binary = cls == "BinaryCircuit"
